@@ -99,3 +99,17 @@ Theorem c14_item_write_order_is_source :
   before "c.store.callbacks.BeforeItemWrite" "iItem.NumValBytes" l = true.
 Proof. exact DecWrite.item_write_order. Qed.
 Print Assumptions c14_item_write_order_is_source.
+
+From GK Require Import DecPins.
+(* the location the root record stores for a collection is read from the root node at every call (nothing cached) *)
+Theorem c14_root_location_json_is_source :
+  body "rootNodeLoc.MarshalJSON" =
+    [SAssign [GVar "loc"] ":=" [GCall "rnl.root.Loc" []];
+     SIf [] (GCall "loc.isEmpty" []) [SReturn [GCall "json.Marshal" [GVar "plocEmpty"]]] [];
+     SReturn [GCall "json.Marshal" [GVar "loc"]]] /\
+  body "Collection.MarshalJSON" =
+    [SAssign [GVar "rnl"] ":=" [GCall "t.rootAddRef" []];
+     SDefer (GCall "t.rootDecRef" [GVar "rnl"]);
+     SReturn [GCall "rnl.MarshalJSON" []]].
+Proof. exact DecPins.root_location_json. Qed.
+Print Assumptions c14_root_location_json_is_source.
